@@ -228,6 +228,38 @@ func extractC12(o *out) {
 	}
 	fmt.Fprintf(b, "def defaultDownstreamFragmentSize : Nat := %d\n", defFrag)
 
+	// query type numbers of the record types whose wrapping cannot fail on length (NULL, PRIVATE)
+	{
+		pen := fileConsts(parse("internal/streams/dns/util/socketace_private_rr.go"), nil)
+		qf := parse("internal/streams/dns/util/query_types.go")
+		typeNum := func(name string) int64 {
+			for _, d := range qf.Decls {
+				g, ok := d.(*ast.GenDecl)
+				if !ok || g.Tok != token.VAR {
+					continue
+				}
+				for _, sp := range g.Specs {
+					vs := sp.(*ast.ValueSpec)
+					for i, nm := range vs.Names {
+						if nm.Name != name || i >= len(vs.Values) {
+							continue
+						}
+						if call, ok := vs.Values[i].(*ast.CallExpr); ok && exprString(call.Fun) == "dnsmessage.Type" && len(call.Args) == 1 {
+							if v := evalExpr(call.Args[0], pen); v != nil {
+								n, _ := constant.Int64Val(constant.ToInt(v))
+								return n
+							}
+						}
+					}
+				}
+			}
+			fail("util.%s is no longer dnsmessage.Type(<constant>)", name)
+			return 0
+		}
+		fmt.Fprintf(b, "/-- util/query_types.go QueryTypeNull / QueryTypePrivate -/\ndef c12QueryTypeNull : Nat := %d\ndef c12QueryTypePrivate : Nat := %d\n",
+			typeNum("QueryTypeNull"), typeNum("QueryTypePrivate"))
+	}
+
 	// ---- panic-site inventory ------------------------------------------------------------------
 	siteFiles := []string{srvFile, "internal/streams/dns/server_communicator.go", "internal/streams/dns/util/wrap.go"}
 	for _, p := range files {
